@@ -28,6 +28,7 @@ Record krule := {
 
 Record case := {
   k_fixed_F1 : bool;                   (* the driver's sentinel request: the Envoy context hands out one view object (fixes/C13-F1.diff) *)
+  k_fixed_F4 : bool;                   (* second sentinel: the Envoy context carries a decoded Path and a RawPath (fixes/C13-F4.diff) *)
   k_L : lreq;
   k_rule : option krule;               (* the rule that matches by construction, with the raw captures *)
   k_escpath : string;                  (* net/http: req.URL.EscapedPath() *)
@@ -106,9 +107,9 @@ Definition expected_dec (c : case) : eobs :=
   expected c true (build_http (k_L c)) (acc_http (decode_of c) (k_L c)) finalize_decision.
 Definition expected_prx (c : case) : eobs :=
   expected c true (build_http (k_L c)) (acc_http (decode_of c) (k_L c)) finalize_proxy.
-Definition expected_env (fixed_F1 : bool) (c : case) : eobs :=
+Definition expected_env (fixed_F1 fixed_F4 : bool) (c : case) : eobs :=
   let E := mk_envoy (k_L c) in
-  expected c fixed_F1 (build_envoy E) (acc_envoy (decode_of c) E) finalize_envoy.
+  expected c fixed_F1 (build_envoy fixed_F4 E) (acc_envoy (decode_of c) E) finalize_envoy.
 
 (** the queries the HTTP run asks (conditions, templates) and the probes; the pipeline's adds *)
 Definition asked (c : case) : slashes * list query * list add :=
@@ -131,17 +132,17 @@ Definition matched (c : case) : bool := match k_rule c with Some _ => true | Non
 Definition wf_case (c : case) : bool :=
   String.eqb (k_escpath c) (escpath_of_wire (l_rawpath (k_L c))) && wf_lreqb (k_L c).
 
-Definition check (impl_fixed_F1 : bool) (c : case) : verdict :=
+Definition check (impl_fixed_F1 impl_fixed_F4 : bool) (c : case) : verdict :=
   let '(sl, qs, adds) := asked c in
   let L := k_L c in
   {| v_corr := wf_case c && eobs_eqb (expected_dec c) (k_dec c) && eobs_eqb (expected_prx c) (k_prx c) &&
-               eobs_eqb (expected_env impl_fixed_F1 c) (k_env c);
+               eobs_eqb (expected_env impl_fixed_F1 impl_fixed_F4 c) (k_env c);
      v_prop := eobs_eqb (k_dec c) (k_prx c) && eobs_eqb (k_dec c) (k_env c) && eo_ok (k_dec c);
      v_guards := guards [
-       (1%Z, negb impl_fixed_F1 && existsb (g_F1_query (caps_of c)) qs);
+       (1%Z, negb impl_fixed_F1 && existsb (g_F1_query (caps_of c) sl impl_fixed_F4) qs);
        (2%Z, existsb (g_F2_query L) qs);
        (3%Z, g_F3_adds adds);
-       (4%Z, existsb (g_F4_query sl L) qs || (matched c && g_F4_decision sl L));
+       (4%Z, negb impl_fixed_F4 && (existsb (g_F4_query sl L) qs || (matched c && g_F4_decision sl L)));
        (5%Z, existsb (g_F5_query L) qs || g_F5_adds adds);
        (6%Z, existsb g_F6_query qs);
        (7%Z, existsb (g_F7_query (decode_of c) L) qs) ] |}.
@@ -149,7 +150,7 @@ Definition check (impl_fixed_F1 : bool) (c : case) : verdict :=
 (** the variant of the model is chosen by what the sentinel request of the run observed; whether the
     pinned variant is acceptable is decided by findings/C13.json (guard 1 is only honoured while
     C13-F1 is listed as open) *)
-Definition check_auto (c : case) : verdict := check (k_fixed_F1 c) c.
+Definition check_auto (c : case) : verdict := check (k_fixed_F1 c) (k_fixed_F4 c) c.
 
 (* short constructors for the generated case files *)
 Definition lrq m t h p q hs b pe :=
@@ -160,5 +161,5 @@ Definition rul id sl az steps probes caps :=
   {| kr_id := id; kr_slashes := sl; kr_authz := az; kr_steps := steps; kr_probes := probes; kr_caps := caps |}.
 Definition hov hs cs := {| ho_headers := hs; ho_cookies := cs |}.
 Definition eob s r v h ok := {| eo_status := s; eo_rule := r; eo_view := v; eo_ho := h; eo_ok := ok |}.
-Definition cs fx L r ep ct db de d p e :=
-  {| k_fixed_F1 := fx; k_L := L; k_rule := r; k_escpath := ep; k_ct := ct; k_dec_body := db; k_dec_empty := de; k_dec := d; k_prx := p; k_env := e |}.
+Definition cs fx f4 L r ep ct db de d p e :=
+  {| k_fixed_F1 := fx; k_fixed_F4 := f4; k_L := L; k_rule := r; k_escpath := ep; k_ct := ct; k_dec_body := db; k_dec_empty := de; k_dec := d; k_prx := p; k_env := e |}.
